@@ -152,7 +152,7 @@ def run_harness(name, cases, procs=8):
             cp1 = os.path.join(d, "cases%d_%d.ndjson" % (i, j))
             op1 = os.path.join(d, "obs%d_%d.ndjson" % (i, j))
             write_ndjson(cp1, [c])
-            rc1, out1 = run_file(cp1, op1, limit=30)
+            rc1, out1 = run_file(cp1, op1, limit=10)
             if rc1 == 0:
                 recs.extend(read_ndjson(op1))
             else:
